@@ -589,7 +589,42 @@ static void c10h_case(uint64_t idx)
 	char hist[600]; size_t hw = 0; hist[0] = 0;
 	unsigned steps = 3 + vrng_below(&r, 10); char key[200];
 	bool viol = false;
+	// an encoded Index for the index-decoder steps (built once with malloc, outside the monitored allocator)
+	static uint8_t ixbuf[4096]; static size_t ixlen = 0;
+	if (ixlen == 0) {
+		lzma_index *t = lzma_index_init(NULL);
+		for (unsigned q = 0; t != NULL && q < 300; ++q) (void)lzma_index_append(t, NULL, 40 + q * 4, 1 + q);
+		if (t != NULL) { (void)lzma_index_buffer_encode(t, ixbuf, &ixlen, sizeof(ixbuf)); lzma_index_end(t, NULL); }
+	}
 	for (unsigned k = 0; k < steps && !viol; ++k) {
+		// a fifth of the steps: lzma_index_decoder() (not in the coder table: its product is an lzma_index the caller
+		// owns), one to three times in a row on the handle, each life fed whole or cut short, each init under a
+		// failure plan half of the time - a decode left unfinished keeps its partial Index inside the coder, and the
+		// next init of the same coder type must dispose of it exactly once even when its own allocations fail
+		if (ixlen != 0 && vrng_chance(&r, 1, 5)) {
+			unsigned lives = 1 + vrng_below(&r, 3);
+			for (unsigned l = 0; l < lives && !viol; ++l) {
+				static lzma_index *got; got = NULL;
+				alloc_mon_reset_plan(&mon);
+				if (vrng_chance(&r, 1, 2)) { if (vrng_chance(&r, 1, 2)) mon.fail_at = (int64_t)(mon.n_alloc + 1 + vrng_below(&r, 4)); else mon.fail_from = (int64_t)(mon.n_alloc + 1 + vrng_below(&r, 4)); }
+				lzma_ret ret = lzma_index_decoder(&s, &got, UINT64_MAX);
+				hw += (size_t)snprintf(hist + hw, hw < sizeof(hist) ? sizeof(hist) - hw : 0, "index_dec=%s ", lzma_ret_name(ret)); if (hw >= sizeof(hist)) hw = sizeof(hist) - 1;
+				hx_eval(); hx_count("reuse_index_decoder_lives", 1);
+				if (ret == LZMA_OK) {
+					size_t n = vrng_chance(&r, 1, 2) ? ixlen : (size_t)vrng_below64(&r, ixlen);
+					s.next_in = ixbuf; s.avail_in = n; uint8_t dummy[1]; s.next_out = dummy; s.avail_out = 0;
+					lzma_ret cr = lzma_code(&s, LZMA_RUN);
+					if (n == ixlen && mon.n_failed_injected == 0 && cr != LZMA_STREAM_END) { hx_violation("C10", "reuse-history-broken|index_dec", idx, "whole Index gave %s; history %s", lzma_ret_name(cr), hist); viol = true; }
+					if (cr == LZMA_STREAM_END && got == NULL) { hx_violation("C10", "reuse-history-broken|index_dec", idx, "STREAM_END without an Index; history %s", hist); viol = true; }
+					if (cr != LZMA_STREAM_END && got != NULL) { hx_violation("C10", "caller-object-changed|index_dec", idx, "%s but *i was set; history %s", lzma_ret_name(cr), hist); viol = true; got = NULL; }
+					if (n < ixlen && cr == LZMA_OK) hx_count("reuse_index_decoder_left_unfinished", 1);
+					if (got != NULL) { lzma_index_end(got, &mon.a); got = NULL; }
+				} else if (ret != LZMA_MEM_ERROR) { hx_violation("C10", "reinit-failed|index_dec", idx, "returned %s; history %s", lzma_ret_name(ret), hist); viol = true; }
+				else if (got != NULL) { hx_violation("C10", "caller-object-changed|index_dec", idx, "failed init set *i; history %s", hist); viol = true; }
+				if (mon.errors) { hx_violation("C10", "allocator-misuse|reuse-history", idx, "%s; history %s", mon.errmsg, hist); viol = true; }
+			}
+			continue;
+		}
 		unsigned i = vrng_below(&r, (uint32_t)NCODERS);
 		alloc_mon_reset_plan(&mon);
 		if (vrng_chance(&r, 1, 2)) { if (vrng_chance(&r, 1, 2)) mon.fail_at = (int64_t)(mon.n_alloc + 1 + vrng_below(&r, 12)); else mon.fail_from = (int64_t)(mon.n_alloc + 1 + vrng_below(&r, 12)); }
